@@ -542,6 +542,370 @@ theorem parseField_sound (w : Win bs rdStart rdlength) {kind : FieldKind} {spec 
     subst hl; subst he
     refine ⟨.tlvs tl, ?_, rfl, rfl⟩
     simp only [Rfc.decodeField, ht, Option.map_some]
+theorem parseField_complete (w : Win bs rdStart rdlength) {kind : FieldKind} {spec : Rfc.FieldSpec}
+    (hk : compatKind kind spec = true) {p : Nat} (h1 : rdStart ≤ p) (h2 : p ≤ bs.size)
+    (habin : isAbin kind = true → p = rdStart) {fv : Rfc.FieldVal} {p' : Nat}
+    (hd : Rfc.decodeField bs (rdStart + rdlength) spec p = some (fv, p'))
+    (hs : Rfc.fieldSupported spec fv = true) :
+    ∃ v, parseField bs (bs.size - rdStart) rdlength kind p = .ok v p' ∧ Rfc.toVal spec fv = some v := by
+  have wf := w.fits
+  cases kind <;> cases spec <;> simp only [compatKind] at hk <;> (try (exact absurd hk (by decide)))
+  case be16.u16 =>
+    simp only [Rfc.decodeField] at hd
+    split at hd
+    · rename_i hfit
+      rw [u16At_eq, dif_pos (by omega)] at hd
+      simp only [Option.map_some, Option.some.injEq, Prod.mk.injEq] at hd
+      obtain ⟨rfl, rfl⟩ := hd
+      refine ⟨.u16 (be16At bs p (by omega)), ?_, rfl⟩
+      show (fetchBe16 bs >>= fun v => pure (Val.u16 v)) p = _
+      rw [P.bind_ok (by rw [fetchBe16_eq h2, dif_pos (by omega)])]; rfl
+    · simp at hd
+  case be32.u32 =>
+    simp only [Rfc.decodeField] at hd
+    split at hd
+    · rename_i hfit
+      rw [u32At_eq, dif_pos (by omega)] at hd
+      simp only [Option.map_some, Option.some.injEq, Prod.mk.injEq] at hd
+      obtain ⟨rfl, rfl⟩ := hd
+      refine ⟨.u32 (be32At bs p (by omega)), ?_, rfl⟩
+      show (fetchBe32 bs >>= fun v => pure (Val.u32 v)) p = _
+      rw [P.bind_ok (by rw [fetchBe32_eq h2, dif_pos (by omega)])]; rfl
+    · simp at hd
+  case u8.u8 =>
+    simp only [Rfc.decodeField] at hd
+    split at hd
+    · rename_i hfit
+      rw [byteAt_eq, dif_pos (by omega)] at hd
+      simp only [Option.map_some, Option.some.injEq, Prod.mk.injEq] at hd
+      obtain ⟨rfl, rfl⟩ := hd
+      refine ⟨.u8 bs[p].toNat, ?_, rfl⟩
+      show (fetchByte bs >>= fun v => pure (Val.u8 v.toNat)) p = _
+      rw [P.bind_ok (by rw [fetchByte_eq h2, dif_pos (by omega)])]; rfl
+    · simp at hd
+  case name.domainName isHost =>
+    cases isHost
+    · simp only [Rfc.decodeField] at hd
+      cases hn : Rfc.name bs p with
+      | none => rw [hn] at hd; simp at hd
+      | some r =>
+        obtain ⟨ls, next⟩ := r
+        rw [hn] at hd
+        simp only at hd
+        split at hd
+        · simp only [Option.some.injEq, Prod.mk.injEq] at hd
+          obtain ⟨rfl, rfl⟩ := hd
+          refine ⟨.name (some (escapeName ls)), ?_, rfl⟩
+          show (parseName bs false >>= fun n => pure (Val.name (some n))) p = _
+          rw [P.bind_ok (by rw [parseName_eq_rfc bs p h2, hn])]; rfl
+        · simp at hd
+    · simp at hk
+  case str.charString blank ne =>
+    simp only [Rfc.decodeField] at hd
+    split at hd
+    · rename_i hp1
+      rw [byteAt_eq, dif_pos (by omega)] at hd
+      simp only at hd
+      split at hd
+      · rename_i hfit
+        simp only [Option.some.injEq, Prod.mk.injEq] at hd
+        obtain ⟨rfl, rfl⟩ := hd
+        simp only [Rfc.fieldSupported] at hs
+        refine ⟨.str (some (slice bs (p + 1) bs[p].toNat)), ?_, rfl⟩
+        show (rrRemainingLen bs (bs.size - rdStart) rdlength >>= fun rem => do
+            let s ← parseDnsBinstr bs rem true
+            if !blank ∧ s.length = 0 then P.fail .ebadresp else pure (Val.str (some s))) p = _
+        rw [P.bind_ok (rrRemainingLen_eq w h1 h2)]
+        have hstr : parseDnsBinstr bs (rdStart + rdlength - p) true p =
+            .ok (slice bs (p + 1) bs[p].toNat) (p + 1 + bs[p].toNat) := by
+          rw [parseDnsStr_eq h2, if_neg (by omega), dif_pos (by omega), if_neg (by omega), if_pos (by omega),
+            if_pos hs]
+        rw [P.bind_ok hstr]
+        have hb : ¬ ((!blank) = true ∧ (slice bs (p + 1) bs[p].toNat).length = 0) := by
+          intro ⟨hb1, hb2⟩
+          rw [slice_length (by omega)] at hb2
+          have hne : ne = true := by cases blank <;> cases ne <;> simp_all
+          exact hfit.2 hne hb2
+        rw [if_neg hb]; rfl
+      · simp at hd
+    · simp at hd
+  case addr4.ipv4 =>
+    simp only [Rfc.decodeField] at hd
+    split at hd
+    · simp only [Option.some.injEq, Prod.mk.injEq] at hd
+      obtain ⟨rfl, rfl⟩ := hd
+      refine ⟨.addr (slice bs p 4), ?_, rfl⟩
+      show (fetchBytes bs 4 >>= fun b => pure (Val.addr b)) p = _
+      rw [P.bind_ok (by rw [fetchBytes_eq h2, if_pos ⟨by decide, by omega⟩])]; rfl
+    · simp at hd
+  case addr6.ipv6 =>
+    simp only [Rfc.decodeField] at hd
+    split at hd
+    · simp only [Option.some.injEq, Prod.mk.injEq] at hd
+      obtain ⟨rfl, rfl⟩ := hd
+      refine ⟨.addr6 (slice bs p 16), ?_, rfl⟩
+      show (fetchBytes bs 16 >>= fun b => pure (Val.addr6 b)) p = _
+      rw [P.bind_ok (by rw [fetchBytes_eq h2, if_pos ⟨by decide, by omega⟩])]; rfl
+    · simp at hd
+  case abin.charStrings vp =>
+    cases vp
+    · have hp0 : p = rdStart := habin rfl
+      subst hp0
+      simp only [Rfc.decodeField] at hd
+      cases hc : Rfc.charStrings bs (p + rdlength) p with
+      | none => rw [hc] at hd; simp at hd
+      | some sl =>
+        rw [hc] at hd
+        cases sl with
+        | nil => simp at hd
+        | cons a t =>
+          simp only [Option.some.injEq, Prod.mk.injEq] at hd
+          obtain ⟨rfl, rfl⟩ := hd
+          refine ⟨.abin (a :: t), ?_, rfl⟩
+          show (parseMultistring bs rdlength false >>= fun l => pure (Val.abin l)) p = _
+          have hm : parseMultistring bs rdlength false p = .ok (a :: t) (p + rdlength) := by
+            unfold parseMultistring
+            rw [P.bind_ok (bufLen_eq h2)]
+            have hrd : rdlength ≠ 0 := by
+              intro h0
+              rw [h0, Rfc.charStrings, dif_neg (by omega), if_pos (by omega)] at hc
+              simp at hc
+            rw [if_neg hrd]
+            have := multistringLoop_complete p rdlength wf (p + rdlength) rfl p (Nat.le_refl _) [] false hc
+              (Or.inr (by simp))
+            simpa using this
+          rw [P.bind_ok hm]; rfl
+    · simp at hk
+  case binRest.opaqueRest =>
+    simp only [Rfc.decodeField] at hd
+    split at hd
+    · rename_i hpe
+      simp only [Option.some.injEq, Prod.mk.injEq] at hd
+      obtain ⟨rfl, rfl⟩ := hd
+      simp only [Rfc.fieldSupported] at hs
+      rw [slice_length (by omega)] at hs
+      have hlen : rdStart + rdlength - p ≠ 0 := by simpa using hs
+      refine ⟨.bin (some (slice bs p (rdStart + rdlength - p))), ?_, rfl⟩
+      show (rrRemainingLen bs (bs.size - rdStart) rdlength >>= fun len =>
+          if len = 0 then P.fail .ebadresp else do
+            let b ← fetchBytes bs len
+            pure (Val.bin (some b))) p = _
+      rw [P.bind_ok (rrRemainingLen_eq w h1 h2), if_neg hlen,
+        P.bind_ok (by rw [fetchBytes_eq h2, if_pos ⟨hlen, by omega⟩])]
+      simp only [P.pure_apply]
+      congr 1; omega
+    · simp at hd
+  case strRest.textRest =>
+    simp only [Rfc.decodeField] at hd
+    split at hd
+    · rename_i hpe
+      simp only [Option.some.injEq, Prod.mk.injEq] at hd
+      obtain ⟨rfl, rfl⟩ := hd
+      simp only [Rfc.fieldSupported, printable_eq] at hs
+      have hlen : rdStart + rdlength - p ≠ 0 := by omega
+      refine ⟨.name (some (slice bs p (rdStart + rdlength - p))), ?_, rfl⟩
+      show (rrRemainingLen bs (bs.size - rdStart) rdlength >>= fun len =>
+          if len = 0 then P.fail .ebadresp else do
+            let s ← fetchStrDup bs len
+            pure (Val.name (some s))) p = _
+      rw [P.bind_ok (rrRemainingLen_eq w h1 h2), if_neg hlen]
+      have hf : fetchStrDup bs (rdStart + rdlength - p) p =
+          .ok (slice bs p (rdStart + rdlength - p)) (p + (rdStart + rdlength - p)) := by
+        unfold fetchStrDup
+        rw [P.bind_ok (bufLen_eq h2), if_neg (by omega), P.bind_ok (rawSlice_eq (by omega)),
+          if_neg (by simp [hs]), P.bind_ok (by rw [consume_eq h2, if_pos (by omega)])]
+        rfl
+      rw [P.bind_ok hf]
+      simp only [P.pure_apply]
+      congr 1; omega
+    · simp at hd
+  case opts.tlvRest =>
+    simp only [Rfc.decodeField] at hd
+    cases ht : Rfc.tlvs bs (rdStart + rdlength) p with
+    | none => rw [ht] at hd; simp at hd
+    | some tl =>
+      rw [ht] at hd
+      simp only [Option.map_some, Option.some.injEq, Prod.mk.injEq] at hd
+      obtain ⟨rfl, rfl⟩ := hd
+      refine ⟨.opt (optFold [] tl), ?_, rfl⟩
+      show (((optLoop bs (bs.size - rdStart) rdlength [] : P (List (Nat × BStr))) >>= fun l => pure (Val.opt l)) : P Val) p = _
+      rw [P.bind_ok (optLoop_complete w _ rfl p h1 [] ht)]; rfl
+end window
+
+def compatScript : Script → List Rfc.FieldSpec → Bool
+  | [], [] => true
+  | kk :: rest, s :: ss => compatKind kk.1 s && compatScript rest ss
+  | _, _ => false
+
+def noAbin (script : Script) : Bool := script.all fun kk => !isAbin kk.1
+
+/-- the string-array kind measures its window from where it starts, so it must come first (TXT) -/
+def abinOk (script : Script) : Bool :=
+  noAbin script || (match script with
+    | [(.abin false, _)] => true
+    | _ => false)
+
+section window
+variable {bs : Bytes} {rdStart rdlength : Nat}
+
+theorem parseFields_sound (w : Win bs rdStart rdlength) :
+    ∀ (script : Script) (specs : List Rfc.FieldSpec), compatScript script specs = true →
+    ∀ {p : Nat}, rdStart ≤ p → p ≤ bs.size → (noAbin script = true ∨ (p = rdStart ∧ abinOk script = true)) →
+    ∀ {fs : List (Nat × Val)} {p' : Nat}, parseFields bs (bs.size - rdStart) rdlength script p = .ok fs p' →
+      p' ≤ rdStart + rdlength →
+      ∃ vals, Rfc.decodeFields bs (rdStart + rdlength) specs p = some vals ∧
+        Rfc.toVals specs vals = some (fs.map (·.2)) ∧ Rfc.fieldsSupported specs vals = true ∧
+        fs.map (·.1) = script.map (·.2) := by
+  intro script
+  induction script with
+  | nil =>
+    intro specs hc p h1 h2 _ fs p' hr hp'
+    cases specs with
+    | nil =>
+      simp only [parseFields, P.pure_apply] at hr
+      injection hr with hr _; subst hr
+      exact ⟨[], rfl, rfl, rfl, rfl⟩
+    | cons s ss => simp [compatScript] at hc
+  | cons kk rest ih =>
+    intro specs hc p h1 h2 hab fs p' hr hp'
+    obtain ⟨kind, key⟩ := kk
+    cases specs with
+    | nil => simp [compatScript] at hc
+    | cons s ss =>
+      simp only [compatScript, Bool.and_eq_true] at hc
+      unfold parseFields at hr
+      obtain ⟨v, o1, g1, hr⟩ := P.bind_eq_ok hr
+      obtain ⟨vs, o2, g2, hr⟩ := P.bind_eq_ok hr
+      simp only [P.pure_apply] at hr
+      injection hr with hr ho; subst hr; subst ho
+      have b1 := (safe_parseField (bs.size - rdStart) rdlength kind h2 (by omega)).ok g1
+      have b2 := (safe_parseFields (bs.size - rdStart) rdlength rest b1.2 (by omega)).ok g2
+      have hrest : noAbin rest = true := by
+        rcases hab with hn | ⟨_, hn⟩
+        · simp only [noAbin, List.all_cons, Bool.and_eq_true] at hn ⊢; exact hn.2
+        · unfold abinOk at hn
+          rcases (Bool.or_eq_true_iff).1 hn with hn | hn
+          · simp only [noAbin, List.all_cons, Bool.and_eq_true] at hn ⊢; exact hn.2
+          · split at hn
+            · rename_i k heq
+              injection heq with _ heq; subst heq; rfl
+            · simp at hn
+      have habin : isAbin kind = true → p = rdStart := by
+        intro hk
+        rcases hab with hn | ⟨hp, _⟩
+        · simp only [noAbin, List.all_cons, Bool.and_eq_true, Bool.not_eq_eq_eq_not, Bool.not_true] at hn
+          rw [hk] at hn; simp at hn
+        · exact hp
+      obtain ⟨fv, d1, t1, s1⟩ := parseField_sound w hc.1 h1 h2 habin g1 (by omega)
+      obtain ⟨vals, d2, t2, s2, k2⟩ := ih ss hc.2 (by omega) b1.2 (Or.inl hrest) g2 hp'
+      refine ⟨fv :: vals, ?_, ?_, ?_, ?_⟩
+      · simp only [Rfc.decodeFields, d1, d2]
+      · simp only [Rfc.toVals, t1, t2, List.map_cons]
+      · simp only [Rfc.fieldsSupported, s1, s2, Bool.and_self]
+      · simp only [List.map_cons, k2]
+
+theorem decodeField_le {e : Nat} {spec : Rfc.FieldSpec} {p p' : Nat} {fv : Rfc.FieldVal}
+    (hd : Rfc.decodeField bs e spec p = some (fv, p')) : p' ≤ e := by
+  cases spec <;> simp only [Rfc.decodeField] at hd
+  case u8 => split at hd <;> simp [Rfc.byteAt] at hd; obtain ⟨_, _, _, rfl⟩ := hd; omega
+  case u16 =>
+    split at hd
+    · cases hu : Rfc.u16At bs p <;> rw [hu] at hd <;> simp at hd
+      obtain ⟨_, rfl⟩ := hd; omega
+    · simp at hd
+  case u32 =>
+    split at hd
+    · cases hu : Rfc.u32At bs p <;> rw [hu] at hd <;> simp at hd
+      obtain ⟨_, rfl⟩ := hd; omega
+    · simp at hd
+  case ipv4 => split at hd <;> simp at hd; obtain ⟨_, rfl⟩ := hd; omega
+  case ipv6 => split at hd <;> simp at hd; obtain ⟨_, rfl⟩ := hd; omega
+  case domainName =>
+    split at hd
+    · split at hd <;> simp at hd
+      obtain ⟨_, rfl⟩ := hd; assumption
+    · simp at hd
+  case charString ne =>
+    split at hd
+    · split at hd
+      · split at hd <;> simp at hd
+        obtain ⟨_, rfl⟩ := hd; omega
+      · simp at hd
+    · simp at hd
+  case charStrings =>
+    split at hd <;> simp at hd
+    obtain ⟨_, rfl⟩ := hd; omega
+  case opaqueRest => split at hd <;> simp at hd; obtain ⟨_, rfl⟩ := hd; omega
+  case textRest => split at hd <;> simp at hd; obtain ⟨_, rfl⟩ := hd; omega
+  case tlvRest =>
+    cases ht : Rfc.tlvs bs e p <;> rw [ht] at hd <;> simp at hd
+    obtain ⟨_, rfl⟩ := hd; omega
+
+theorem parseFields_complete (w : Win bs rdStart rdlength) :
+    ∀ (script : Script) (specs : List Rfc.FieldSpec), compatScript script specs = true →
+    ∀ {p : Nat}, rdStart ≤ p → p ≤ rdStart + rdlength →
+      (noAbin script = true ∨ (p = rdStart ∧ abinOk script = true)) →
+    ∀ {vals : List Rfc.FieldVal}, Rfc.decodeFields bs (rdStart + rdlength) specs p = some vals →
+      Rfc.fieldsSupported specs vals = true →
+      ∃ fs p', parseFields bs (bs.size - rdStart) rdlength script p = .ok fs p' ∧ p' ≤ rdStart + rdlength ∧
+        Rfc.toVals specs vals = some (fs.map (·.2)) ∧ fs.map (·.1) = script.map (·.2) := by
+  have wf := w.fits
+  intro script
+  induction script with
+  | nil =>
+    intro specs hc p h1 h2 _ vals hd hs
+    cases specs with
+    | nil =>
+      simp only [Rfc.decodeFields, Option.some.injEq] at hd
+      subst hd
+      exact ⟨[], p, rfl, h2, rfl, rfl⟩
+    | cons s ss => simp [compatScript] at hc
+  | cons kk rest ih =>
+    intro specs hc p h1 h2 hab vals hd hs
+    obtain ⟨kind, key⟩ := kk
+    cases specs with
+    | nil => simp [compatScript] at hc
+    | cons s ss =>
+      simp only [compatScript, Bool.and_eq_true] at hc
+      simp only [Rfc.decodeFields] at hd
+      cases hd1 : Rfc.decodeField bs (rdStart + rdlength) s p with
+      | none => rw [hd1] at hd; simp at hd
+      | some r =>
+        obtain ⟨fv, p1⟩ := r
+        rw [hd1] at hd
+        simp only at hd
+        cases hd2 : Rfc.decodeFields bs (rdStart + rdlength) ss p1 with
+        | none => rw [hd2] at hd; simp at hd
+        | some vs =>
+          rw [hd2] at hd
+          simp only [Option.some.injEq] at hd
+          subst hd
+          simp only [Rfc.fieldsSupported, Bool.and_eq_true] at hs
+          have hrest : noAbin rest = true := by
+            rcases hab with hn | ⟨_, hn⟩
+            · simp only [noAbin, List.all_cons, Bool.and_eq_true] at hn ⊢; exact hn.2
+            · unfold abinOk at hn
+              rcases (Bool.or_eq_true_iff).1 hn with hn | hn
+              · simp only [noAbin, List.all_cons, Bool.and_eq_true] at hn ⊢; exact hn.2
+              · split at hn
+                · rename_i k heq
+                  injection heq with _ heq; subst heq; rfl
+                · simp at hn
+          have habin : isAbin kind = true → p = rdStart := by
+            intro hk
+            rcases hab with hn | ⟨hp, _⟩
+            · simp only [noAbin, List.all_cons, Bool.and_eq_true, Bool.not_eq_eq_eq_not, Bool.not_true] at hn
+              rw [hk] at hn; simp at hn
+            · exact hp
+          obtain ⟨v, g1, t1⟩ := parseField_complete w hc.1 h1 (by omega) habin hd1 hs.1
+          have b1 := (safe_parseField (bs.size - rdStart) rdlength kind (by omega : p ≤ bs.size) (by omega)).ok g1
+          have hle := decodeField_le hd1
+          obtain ⟨fs, p', g2, hp', t2, k2⟩ := ih ss hc.2 (by omega) hle (Or.inl hrest) hd2 hs.2
+          refine ⟨(key, v) :: fs, p', ?_, hp', ?_, ?_⟩
+          · unfold parseFields
+            rw [P.bind_ok g1, P.bind_ok g2]; rfl
+          · simp only [Rfc.toVals, t1, t2, List.map_cons]
+          · simp only [List.map_cons, k2]
 end window
 
 end Cares.Dns
